@@ -3,7 +3,7 @@ import sys, os, json, re, tempfile
 import vlib
 from tlcparse import replay_lines
 
-ALL_FEATURES = ["apps", "storage", "detached", "psk", "gce", "reinit", "badkp", "custom", "observer", "succ", "extcommit", "caps"]
+ALL_FEATURES = ["apps", "storage", "detached", "psk", "gce", "reinit", "badkp", "custom", "observer", "succ", "extcommit", "caps", "extsender", "newmember", "lastresort"]
 
 def follow_batch(bs, features=None, timeout=1200, workers=8):
     """Follow a list of recorded sequences (same party set) in one TLC run; returns [(followed, model|None)] and the TLC result."""
@@ -86,7 +86,7 @@ def normalise(b):
     has_ds = any(s["a"] == "DsChoose" for s in b["steps"])
     for s in b["steps"]:
         s = json.loads(json.dumps(s))
-        if s["a"] == "GenKeyPackage": s["args"].setdefault("bad", "")
+        if s["a"] == "GenKeyPackage": s["args"].setdefault("bad", ""); s["args"].setdefault("lr", False)
         if s["a"] in ("Commit", "CommitDetached") and s.get("res") == "ok":
             ncommit += 1; by[ncommit] = s["p"]
         if not has_ds and s["a"] in ("JoinWelcome", "DeliverCommit") and s["args"].get("commit") not in chosen and s["args"].get("commit") in by:
